@@ -9,6 +9,7 @@ import (
 	"errors"
 	"fmt"
 	"io"
+	"strings"
 
 	"github.com/wi1dcard/fingerproxy/pkg/http2"
 	"golang.org/x/net/http2/hpack"
@@ -704,6 +705,8 @@ type c19Block struct {
 	Bad    string // "", or why the block is malformed at the field level (stream error PROTOCOL_ERROR)
 	Middle *Frame // a frame put between the first and the second frame of the block (nil: none)
 	MidOK  bool   // the middle frame is a legal CONTINUATION of this block
+	Trunc  int    // octets cut off the end of the encoded block (inside its last field): a decoding error
+	Big    int    // > 0: a last field with a value of that many octets, carried by one CONTINUATION frame
 }
 
 // runC19Blocks: header blocks written with the independent codec are read by one Framer,
@@ -711,7 +714,7 @@ type c19Block struct {
 // open header block is a connection error PROTOCOL_ERROR whatever its type (RFC 7540 6.2,
 // 6.10; extension frames included, 5.5); a block with a malformed field is a stream error
 // and leaves the decoder usable: the blocks that follow are decoded in full.
-func runC19Blocks(blocks []c19Block, meta bool, cuts []int) (vs []Violation, stats map[string]int) {
+func runC19Blocks(blocks []c19Block, meta bool, cuts []int, limit int) (vs []Violation, stats map[string]int) {
 	stats = map[string]int{}
 	bad := func(class, format string, args ...any) {
 		vs = append(vs, Violation{class, class, fmt.Sprintf(format, args...)})
@@ -725,7 +728,11 @@ func runC19Blocks(blocks []c19Block, meta bool, cuts []int) (vs []Violation, sta
 	}
 	var exps []exp
 	for _, b := range blocks {
-		fs := HeadersFrames(b.Stream, enc.Block(b.Fields), true, nil, -1, b.Cuts)
+		blk := enc.Block(b.Fields)
+		if b.Trunc > 0 && b.Trunc < len(blk) {
+			blk = blk[:len(blk)-b.Trunc]
+		}
+		fs := HeadersFrames(b.Stream, blk, true, nil, -1, b.Cuts)
 		if b.Middle != nil {
 			if len(fs) < 2 {
 				// make room: one octet moves into a CONTINUATION frame
@@ -742,6 +749,9 @@ func runC19Blocks(blocks []c19Block, meta bool, cuts []int) (vs []Violation, sta
 	if meta {
 		fr.ReadMetaHeaders = hpack.NewDecoder(4096, nil)
 	}
+	if limit > 0 {
+		fr.SetMaxReadFrameSize(uint32(limit))
+	}
 	defer func() {
 		if e := recover(); e != nil {
 			bad("panic", "ReadFrame panicked while reading header blocks (meta=%v): %v", meta, e)
@@ -749,6 +759,36 @@ func runC19Blocks(blocks []c19Block, meta bool, cuts []int) (vs []Violation, sta
 	}()
 	for bi, e := range exps {
 		illegalMiddle := e.b.Middle != nil && !e.b.MidOK
+		if e.b.Big > 0 && limit > 0 {
+			// the block's CONTINUATION frame is larger than the read limit: whoever reads it - ReadFrame
+			// itself, or ReadFrame on behalf of the header block it is assembling - refuses it
+			var err error
+			var got http2.Frame
+			for k := 0; k < e.frames && err == nil; k++ {
+				got, err = fr.ReadFrame()
+				if meta {
+					break
+				}
+			}
+			if err != http2.ErrFrameTooLarge {
+				bad("read_limit_exceeded", "block %d: a CONTINUATION frame carrying a field of %d octets was read under a read limit of %d (meta=%v): got %T %v, want ErrFrameTooLarge", bi, e.b.Big, limit, meta, got, err)
+			} else {
+				stats["oversized_continuation_refused"]++
+			}
+			return
+		}
+		if e.b.Trunc > 0 && meta {
+			// RFC 7540 4.3: a header block that cannot be decoded is a connection error
+			// COMPRESSION_ERROR - whatever else is wrong with the fields decoded before the cut
+			got, err := fr.ReadFrame()
+			var ce http2.ConnectionError
+			if !errors.As(err, &ce) || uint32(ce) != ErrCompression {
+				bad("truncated_block_accepted", "block %d (cut %d octets short inside its last field; %s) was not rejected with a connection error COMPRESSION_ERROR (got %T %v)", bi, e.b.Trunc, e.b.Bad, got, err)
+			} else {
+				stats["truncated_block_rejected"]++
+			}
+			return
+		}
 		if !meta {
 			for k := 0; k < e.frames; k++ {
 				_, err := fr.ReadFrame()
@@ -823,6 +863,7 @@ func badKinds(bs []c19Block) []string {
 
 func drawC19Blocks(t *rapid.T, cuts []int) *Case {
 	n := rapid.IntRange(1, 4).Draw(t, "nblocks")
+	limit := []int{0, 0, 16384, 20000, 65536}[rapid.IntRange(0, 4).Draw(t, "blockslimit")]
 	var blocks []c19Block
 	var descs []string
 	for i := 0; i < n; i++ {
@@ -847,13 +888,22 @@ func drawC19Blocks(t *rapid.T, cuts []int) *Case {
 				b.Bad = "unknown pseudo-header"
 			}
 		}
-		if drawBool(t, "split", 60) {
+		if drawBool(t, "truncblock", 12) {
+			// the block ends inside its last field (after the malformed one, if any)
+			b.Fields = append(b.Fields, [2]string{"x-tail", "0123456789abcdef"})
+			b.Trunc = rapid.IntRange(1, 6).Draw(t, "truncby")
+		}
+		if limit > 0 && b.Trunc == 0 && drawBool(t, "bigcont", 15) {
+			b.Big = limit + rapid.IntRange(1, limit).Draw(t, "bigby")
+			b.Fields = append(b.Fields, [2]string{"x-big", strings.Repeat("Zz9~", b.Big/4+1)[:b.Big]})
+			b.Cuts = []int{rapid.IntRange(1, 40).Draw(t, "bigcut")}
+		} else if drawBool(t, "split", 60) {
 			for k := rapid.IntRange(1, 3).Draw(t, "nsplit"); k > 0; k-- {
 				b.Cuts = append(b.Cuts, rapid.IntRange(1, 40).Draw(t, "splitat"))
 			}
 			sortInts(b.Cuts)
 		}
-		if i == n-1 && drawBool(t, "middle", 60) {
+		if i == n-1 && b.Trunc == 0 && b.Big == 0 && drawBool(t, "middle", 60) {
 			var m Frame
 			switch rapid.IntRange(0, 6).Draw(t, "midkind") {
 			case 0, 1:
@@ -875,7 +925,7 @@ func drawC19Blocks(t *rapid.T, cuts []int) *Case {
 			b.Middle = &m
 		}
 		blocks = append(blocks, b)
-		d := fmt.Sprintf("block(s=%d fields=%d cuts=%v bad=%q", b.Stream, len(b.Fields), b.Cuts, b.Bad)
+		d := fmt.Sprintf("block(s=%d fields=%d cuts=%v bad=%q trunc=%d big=%d", b.Stream, len(b.Fields), b.Cuts, b.Bad, b.Trunc, b.Big)
 		if b.Middle != nil {
 			d += " middle=" + b.Middle.String()
 		}
@@ -883,10 +933,10 @@ func drawC19Blocks(t *rapid.T, cuts []int) *Case {
 	}
 	meta := drawBool(t, "blocksmeta", 65)
 	c := &Case{}
-	c.Summary = fmt.Sprintf("header blocks %v meta=%v cuts %v", descs, meta, head(cuts, 6))
+	c.Summary = fmt.Sprintf("header blocks %v meta=%v limit=%d cuts %v", descs, meta, limit, head(cuts, 6))
 	c.DirectKey = c.Summary
 	c.Direct = func(c *Case) []Violation {
-		vs, st := runC19Blocks(blocks, meta, cuts)
+		vs, st := runC19Blocks(blocks, meta, cuts, limit)
 		c.DirectStats = st
 		return vs
 	}
